@@ -10,6 +10,7 @@ that a shifted index *resolves* to the dataset and sample it was drawn for, and 
 import KDVerif.Props.C04
 import KDVerif.Lemmas.InterleavedSide
 import KDVerif.Lemmas.InterleavedStream
+import KDVerif.Lemmas.C05Extra
 
 namespace KDVerif.C05
 open KDVerif.Interleaved
@@ -98,5 +99,477 @@ theorem eval_loop_is_all_passes (a : Args) (side : Nat → Nat → List Nat) (i 
 /-- non-vacuity: a config with both an epoch and an update interval is due at an epoch end although the
     update interval is not reached (the F05 defect of the unfixed code) -/
 example : due ⟨some 1, some 7, none, none, 2, 2⟩ true 1 3 6 3 = true := by decide
+
+/-! ## Round-2 additions: closed forms at stream level
+
+Vocabulary (all from `Lemmas/C05Extra.lean`, each written without the implementation's recursion):
+* `cfgOffset a i = a.mainDsLen + Σ_{j<i} dsLen_j` is `index_offsets[i]`;
+* `a.configs.zipIdx` is the config list with the config's index, `[(c₀,0), (c₁,1), …]`;
+* `chunks bs l` cuts `l` into consecutive pieces of `bs`, only the last one may be short
+  (`chunks_flatten`, `chunks_sizes`, `chunks_full` in `Lemmas/InterleavedConcat.lean`);
+* `c05x_traj a main n u` is the list of update-boundary states of a run, `c05x_block a side u` what the run emits
+  for the update made from `u` (its events `l1Evs`, then the `set_epoch` of the next epoch if one starts).
+Hypotheses used below and where they come from:
+* `ctor a sa = .ok st` — the constructor accepted the arguments (gives `0 < B`, `0 < samples_per_epoch ≤ N`,
+  every config passes the config asserts);
+* `hmain : ∀ e, (main e).length = a.N` — iterating the main sampler yields `len(main_sampler)` indices;
+* `hmainlt` — the main sampler yields indices of its own data source;
+* `SideOk a side` — config `i`'s sampler yields `len(sampler)` indices of its own data source on every pass
+  (needed: see the counterexample at the end of `Lemmas/InterleavedStream.lean`);
+* `u.p < spe a` / `u.Ok a` — `u` is an update boundary inside an epoch; every state of `c05x_traj` is one
+  (`stream_is_sequence_of_update_blocks`). -/
+
+/-- **Clause "each interleaved config whose interval was reached … is iterated once in full, in config order, …
+    shifted into that config's own index range"** — closed form of everything the loop emits between the batch
+    that completes an update and the budget test: one entry per config, in config order; a config that is not due
+    contributes nothing, a due config contributes ONE pass over what its sampler yields (`side i update`), batch
+    flags by the config's (else the main) batch size, every index shifted by
+    `cfgOffset a i = mainDsLen + Σ (dsLen of the configs before i)`. No hypotheses. -/
+theorem side_passes_closed_form (a : Args) (side : Nat → Nat → List Nat) (epochEnd : Bool)
+    (epoch update sample prevSample : Nat) :
+    sidePasses a side epochEnd epoch update sample prevSample =
+      a.configs.zipIdx.flatMap (fun ci =>
+        if due ci.1 epochEnd epoch update sample prevSample
+        then sidePass (sideBS a ci.1) ci.1.len (cfgOffset a ci.2) (side ci.2 update)
+        else []) :=
+  c05x_sidePasses_closed a side epochEnd epoch update sample prevSample
+
+/-- `cfgOffset` is the constructor's `index_offsets`: it starts at the main data source's size and grows by the
+    size of each config's data source; and it is where dataset `i+1` starts in the concat dataset -/
+theorem cfgOffset_is_index_offsets (a : Args) :
+    cfgOffset a 0 = a.mainDsLen ∧
+    (∀ i c, a.configs[i]? = some c → cfgOffset a (i + 1) = cfgOffset a i + c.dsLen) ∧
+    (∀ i, cfgOffset a i = sumList ((dsSizes a).take (i + 1))) :=
+  ⟨c05x_cfgOffset_zero a, c05x_cfgOffset_succ a, c05x_cfgOffset_eq a⟩
+
+example :
+    let a : Args := ⟨5, 5, 2, false, none, .updates 4,
+      [⟨none, some 2, none, some 2, 3, 3⟩, ⟨some 1, none, none, none, 2, 4⟩, ⟨none, none, some 3, none, 1, 2⟩]⟩
+    (List.range 3).map (cfgOffset a) = [5, 8, 12] ∧
+    -- update 2 of epoch 0 (sample counter 2 → 4): config 0 (every 2 updates) and config 2 (every 3 samples:
+    -- 2/3 < 4/3) are due, config 1 (epoch end) is not
+    sidePasses a (fun i _ => [[0, 1, 2], [3, 1], [1]].getD i []) false 0 2 4 2 =
+      [.idx false 5, .idx true 6, .idx true 7, .idx true 13] := by decide
+
+open Classical in
+/-- **Clauses "After every main update … each interleaved config whose every_n_epochs / every_n_updates /
+    every_n_samples interval was reached or crossed by that update is iterated once in full, in config order"**,
+    at stream level and with the condition in the property's wording (`dueSpec`: the update ended an epoch whose
+    new number is a multiple of `every_n_epochs`, OR the new update number is a multiple of `every_n_updates`, OR
+    the sample counter passed a multiple of `every_n_samples` — several kinds on one config are a disjunction).
+    What the update made from boundary `u` emits is its batch (flags F…FT) followed by exactly the passes of the
+    configs that satisfy the disjunction. -/
+theorem update_emits_batch_then_exactly_the_due_passes (a : Args) (sa : StartArg) (st : Start)
+    (hctor : ctor a sa = .ok st) (side : Nat → Nat → List Nat) (u : U) (hp : u.p < spe a) :
+    l1Evs a side u =
+      chunkEvs (u.xs.take (l1R a u)) ++
+      a.configs.zipIdx.flatMap (fun ci =>
+        if dueSpec ci.1 (decide (u.p + l1R a u = spe a)) (l1Next a u).epoch (l1Next a u).update u.sample
+            (l1Next a u).sample
+        then sidePass (sideBS a ci.1) ci.1.len (cfgOffset a ci.2) (side ci.2 (l1Next a u).update)
+        else []) := by
+  obtain ⟨hB, _, _, _⟩ := C04.ctor_ok_geometry a sa st hctor
+  have hcfg := (C04.ctor_ok a sa st hctor).2.1
+  unfold l1Evs
+  rw [c05x_sidePasses_closed]
+  congr 1
+  apply c05x_flatMap_congr
+  intro ci hci
+  have hmem : ci.1 ∈ a.configs := List.fst_mem_of_mem_zipIdx hci
+  have hok : cfgOk ci.1 = true := List.all_eq_true.mp hcfg ci.1 hmem
+  have hlt : u.sample < (l1Next a u).sample := by simp only [l1Next, l1R]; omega
+  have := due_iff_dueSpec ci.1 (decide (u.p + l1R a u = spe a)) (l1Next a u).epoch (l1Next a u).update u.sample
+    (l1Next a u).sample hlt (c05x_cfgOk_samples_pos ci.1 hok)
+  by_cases hd : due ci.1 (decide (u.p + l1R a u = spe a)) (l1Next a u).epoch (l1Next a u).update
+      (l1Next a u).sample u.sample = true
+  · rw [if_pos hd, if_pos (this.mp hd)]
+  · rw [if_neg hd, if_neg (fun h => hd (this.mpr h))]
+
+/-- non-vacuity of `update_emits_batch_then_exactly_the_due_passes`: the constructor accepts, `u` is the boundary
+    before the 2nd update of epoch 0, and the block is the batch `[2,3]` then config 0's pass (every 2 updates) -/
+example :
+    let a : Args := ⟨5, 5, 2, false, none, .updates 4,
+      [⟨none, some 2, none, some 2, 3, 3⟩, ⟨some 1, none, none, none, 2, 4⟩]⟩
+    let u : U := ⟨0, 1, 2, 2, [2, 3, 4]⟩
+    ctor a .none = .ok ⟨0, 0, 0⟩ ∧ u.p < spe a ∧
+    l1Evs a (fun i _ => if i = 0 then [0, 1, 2] else [3, 1]) u =
+      [.idx false 2, .idx true 3, .idx false 5, .idx true 6, .idx true 7] := ⟨rfl, by decide, by decide⟩
+
+/-- **Clauses "After every main update, and only then … in config order" / side passes sit between the complete
+    batch and the next batch or `set_epoch`** — the whole stream is `set_epoch(start epoch)` followed by one block
+    per update, in order; the block of the update made from boundary state `u` is: the complete (non-empty) main
+    batch with flags F…FT, then for every config in config order its pass if it is due at the counters after this
+    update (and nothing if it is not), then the next epoch's `set_epoch` iff the update ended an epoch without
+    reaching the budget. Nothing else is in the stream, so interleaved indices occur after an update and only
+    there. Every boundary state of the run is inside an epoch with enough indices left, its index list lies in the
+    main data source, and the `j`-th block belongs to update number `start.update + j + 1`.
+    (Stream-level replacement of the definitional `side_passes_follow_the_batch`.) -/
+theorem stream_is_sequence_of_update_blocks (a : Args) (sa : StartArg) (st : Start)
+    (hctor : ctor a sa = .ok st) (main : Nat → List Nat) (hmain : ∀ e, (main e).length = a.N)
+    (hmainlt : ∀ e x, x ∈ main e → x < a.mainDsLen)
+    (side : Nat → Nat → List Nat) (n : Nat) (evs : List Ev) (h : l1 a main side n st = some evs) :
+    evs = Ev.setEpoch st.epoch ::
+      (c05x_traj a main n (l1Start main st)).flatMap (fun u =>
+        chunkEvs (u.xs.take (l1R a u)) ++
+        a.configs.zipIdx.flatMap (fun ci =>
+          if due ci.1 (decide (u.p + l1R a u = spe a)) (l1Next a u).epoch (l1Next a u).update
+              (l1Next a u).sample u.sample
+          then sidePass (sideBS a ci.1) ci.1.len (cfgOffset a ci.2) (side ci.2 (l1Next a u).update)
+          else []) ++
+        (if l1Ctl a u = .brk then [Ev.setEpoch (l1Next a u).epoch] else [])) ∧
+    (∀ u ∈ c05x_traj a main n (l1Start main st),
+      u.Ok a ∧ (∀ x ∈ u.xs, x < a.mainDsLen) ∧ u.xs.take (l1R a u) ≠ []) ∧
+    (∀ j u, (c05x_traj a main n (l1Start main st))[j]? = some u → (l1Next a u).update = st.update + j + 1) := by
+  obtain ⟨hB, _, hS, hSN⟩ := C04.ctor_ok_geometry a sa st hctor
+  have hmain' : ∀ e, spe a ≤ (main e).length := fun e => by rw [hmain e]; exact hSN
+  have hok := c05x_traj_ok a main hS hmain' hmainlt n _ (c05x_start_ok a main hS hmain' st)
+      (fun x hx => hmainlt _ x hx)
+  refine ⟨?_, ?_, ?_⟩
+  · rw [c05x_l1_blocks a main side n st evs h]
+    congr 1
+    apply c05x_flatMap_congr
+    intro u _
+    simp only [c05x_block, l1Evs, c05x_sidePasses_closed]
+  · intro u hu
+    have hp := (hok u hu).1.p_lt
+    have hen := (hok u hu).1.enough
+    exact ⟨(hok u hu).1, (hok u hu).2, take_ne_nil _ _ (by unfold l1R; omega) (by unfold l1R; omega)⟩
+  · intro j u hu
+    have := c05x_traj_update a main n _ j u hu
+    simp only [l1Next, l1Start] at this ⊢
+    omega
+
+/-- **The same closed form for the code-mirroring loop** (`iter` = `InterleavedSampler.__iter__`, per-sample
+    machine): for every accepted constructor call with a checkpoint strictly before a non-zero budget, `__iter__`
+    ends by itself and yields exactly `set_epoch`, then per update the complete batch, the passes of the due configs
+    in config order, and the next `set_epoch` at an epoch change. -/
+theorem training_stream_closed_form (a : Args) (sa : StartArg) (st : Start)
+    (hctor : ctor a sa = .ok st) (main : Nat → List Nat) (hmain : ∀ e, (main e).length = a.N)
+    (side : Nat → Nat → List Nat) (hbefore : before a.budget (l1Start main st)) :
+    ∀ fuel, meas a (l1Start main st) < fuel →
+      iter a st main side fuel = .ok (Ev.setEpoch st.epoch ::
+        (c05x_traj a main (meas a (l1Start main st)) (l1Start main st)).flatMap (fun u =>
+          chunkEvs (u.xs.take (l1R a u)) ++
+          a.configs.zipIdx.flatMap (fun ci =>
+            if due ci.1 (decide (u.p + l1R a u = spe a)) (l1Next a u).epoch (l1Next a u).update
+                (l1Next a u).sample u.sample
+            then sidePass (sideBS a ci.1) ci.1.len (cfgOffset a ci.2) (side ci.2 (l1Next a u).update)
+            else []) ++
+          (if l1Ctl a u = .brk then [Ev.setEpoch (l1Next a u).epoch] else []))) := by
+  obtain ⟨evs, hl1, htrain⟩ := C04.train_terminates_and_refines a sa st hctor main hmain side hbefore
+  have hnz : zeroBudget a.budget = false := by
+    unfold before at hbefore
+    unfold zeroBudget
+    cases hb : a.budget with
+    | epochs e => rw [hb] at hbefore; simp only at hbefore ⊢; simp; omega
+    | updates e => rw [hb] at hbefore; simp only at hbefore ⊢; simp; omega
+    | samples e => rw [hb] at hbefore; simp only at hbefore ⊢; simp; omega
+  intro fuel hfuel
+  have hform : evs = _ := c05x_l1_blocks a main side _ st evs hl1
+  simp only [iter, hnz, Bool.false_eq_true, if_false, htrain fuel hfuel]
+  rw [hform]
+  congr 2
+  apply c05x_flatMap_congr
+  intro u _
+  simp only [c05x_block, l1Evs, c05x_sidePasses_closed]
+
+/-- non-vacuity of `training_stream_closed_form`: accepted constructor call, checkpoint before the budget, and the
+    stream `__iter__` yields (fuel 20 > `meas` = 4) -/
+example :
+    let a : Args := ⟨5, 5, 2, false, none, .updates 4,
+      [⟨none, some 2, none, some 2, 3, 3⟩, ⟨some 1, none, none, none, 2, 4⟩]⟩
+    let main : Nat → List Nat := fun _ => [0, 1, 2, 3, 4]
+    let side : Nat → Nat → List Nat := fun i _ => if i = 0 then [0, 1, 2] else [3, 1]
+    ctor a .none = .ok ⟨0, 0, 0⟩ ∧ before a.budget (l1Start main ⟨0, 0, 0⟩) ∧ meas a (l1Start main ⟨0, 0, 0⟩) = 4 ∧
+    iter a ⟨0, 0, 0⟩ main side 20 = .ok
+      [.setEpoch 0, .idx false 0, .idx true 1, .idx false 2, .idx true 3, .idx false 5, .idx true 6, .idx true 7,
+       .idx true 4, .idx false 11, .idx true 9, .setEpoch 1, .idx false 0, .idx true 1,
+       .idx false 5, .idx true 6, .idx true 7] := by
+  refine ⟨rfl, ?_, rfl, rfl⟩
+  simp [before, l1Start]
+
+/-- **Clause "After every main update, and only then"**, in terms of neighbouring stream events only: an index of
+    an interleaved dataset (`≥ mainDsLen`) is never the first index of the stream and its predecessor is never a
+    `set_epoch` call or a main index that leaves its batch unfinished — it is the index that COMPLETES a main
+    batch (an update) or another interleaved index. -/
+theorem side_index_only_directly_after_an_update (a : Args) (sa : StartArg) (st : Start)
+    (hctor : ctor a sa = .ok st) (main : Nat → List Nat) (hmain : ∀ e, (main e).length = a.N)
+    (hmainlt : ∀ e x, x ∈ main e → x < a.mainDsLen)
+    (side : Nat → Nat → List Nat) (n : Nat) (evs : List Ev) (h : l1 a main side n st = some evs) :
+    (∃ rest, evs = Ev.setEpoch st.epoch :: rest) ∧
+    ∀ (pre : List Ev) (e : Ev) (f : Bool) (x : Nat) (post : List Ev),
+      evs = pre ++ e :: Ev.idx f x :: post → a.mainDsLen ≤ x →
+        ∃ g y, e = Ev.idx g y ∧ (a.mainDsLen ≤ y ∨ g = true) := by
+  obtain ⟨hB, _, hS, hSN⟩ := C04.ctor_ok_geometry a sa st hctor
+  have hmain' : ∀ e, spe a ≤ (main e).length := fun e => by rw [hmain e]; exact hSN
+  have hform := c05x_l1_blocks a main side n st evs h
+  have hok := c05x_traj_ok a main hS hmain' hmainlt n _ (c05x_start_ok a main hS hmain' st)
+      (fun x hx => hmainlt _ x hx)
+  have hguard : c05x_sideGuard a.mainDsLen false evs = true := by
+    rw [hform]
+    simp only [c05x_sideGuard]
+    apply c05x_sideGuard_flatMap
+    intro v hv ok'
+    exact c05x_sideGuard_block a side hB v (hok v hv).1 (hok v hv).2 ok'
+  refine ⟨⟨_, hform⟩, ?_⟩
+  intro pre e f x post he hx
+  rw [he] at hguard
+  exact c05x_sideGuard_adjacent a.mainDsLen pre false e f x post hguard hx
+
+/-- non-vacuity for the two stream theorems above: an accepted constructor call whose run ends; the stream and its
+    boundary states (three updates of epoch 0, then the first update of epoch 1) -/
+example :
+    let a : Args := ⟨5, 5, 2, false, none, .updates 4,
+      [⟨none, some 2, none, some 2, 3, 3⟩, ⟨some 1, none, none, none, 2, 4⟩]⟩
+    let main : Nat → List Nat := fun _ => [0, 1, 2, 3, 4]
+    let side : Nat → Nat → List Nat := fun i _ => if i = 0 then [0, 1, 2] else [3, 1]
+    ctor a .none = .ok ⟨0, 0, 0⟩ ∧
+    l1 a main side 10 ⟨0, 0, 0⟩ = some
+      [.setEpoch 0, .idx false 0, .idx true 1, .idx false 2, .idx true 3, .idx false 5, .idx true 6, .idx true 7,
+       .idx true 4, .idx false 11, .idx true 9, .setEpoch 1, .idx false 0, .idx true 1,
+       .idx false 5, .idx true 6, .idx true 7] ∧
+    (c05x_traj a main 10 (l1Start main ⟨0, 0, 0⟩)).map (fun u => (u.epoch, u.update, u.sample, u.p)) =
+      [(0, 0, 0, 0), (0, 1, 2, 2), (0, 2, 4, 4), (1, 3, 5, 0)] := ⟨rfl, by decide, by decide⟩
+
+/-- **Clause "batched by the config's (else the main) batch size with a short final batch"** — the batch sampler
+    over one whole side pass yields exactly the shifted indices cut into consecutive pieces of `bs`, leaves nothing
+    over, and (spelled out) the pieces put together are the shifted indices in the sampler's order, every piece has
+    `1..bs` indices and every piece but the last has exactly `bs`.
+    `hlen`: the sampler yields `len(sampler)` indices (`SideOk`); `hbs`: `sideBS a c` is positive for every accepted
+    constructor call (`side_batch_size`). -/
+theorem side_pass_is_cut_into_batches (bs len off : Nat) (xs : List Nat) (hbs : 0 < bs) (hlen : xs.length = len) :
+    batchSampler (sidePass bs len off xs) = (chunks bs (xs.map (off + ·)), []) ∧
+    (chunks bs (xs.map (off + ·))).flatten = xs.map (off + ·) ∧
+    (∀ c ∈ chunks bs (xs.map (off + ·)), 0 < c.length ∧ c.length ≤ bs) ∧
+    (∀ c ∈ (chunks bs (xs.map (off + ·))).dropLast, c.length = bs) := by
+  refine ⟨?_, chunks_flatten bs hbs _ _ (Nat.le_refl _), chunks_sizes bs hbs _ _ (Nat.le_refl _),
+    chunks_full bs hbs _ _ (Nat.le_refl _)⟩
+  have := c05x_batchSamplerGo_sidePass bs len off hbs xs hlen []
+  simpa [batchSampler, batchSamplerGo] using this
+
+/-- the batch size of a side pass is `config.batch_size or self.batch_size`, and it is positive -/
+theorem side_batch_size (a : Args) (sa : StartArg) (st : Start) (hctor : ctor a sa = .ok st) (c : Config)
+    (hc : c ∈ a.configs) : sideBS a c = c.batchSize.getD a.B ∧ 0 < sideBS a c := by
+  obtain ⟨hB, _, _, _⟩ := C04.ctor_ok_geometry a sa st hctor
+  have hcfg := (C04.ctor_ok a sa st hctor).2.1
+  exact ⟨c05x_sideBS_eq a c (List.all_eq_true.mp hcfg c hc), c05x_sideBS_pos a c hB⟩
+
+/-- 7 indices, batch size 3, offset 10: batches 3 + 3 + 1 -/
+example : batchSampler (sidePass 3 7 10 [4, 0, 6, 2, 5, 1, 3]) =
+    ([[14, 10, 16], [12, 15, 11], [13]], []) ∧
+    chunks 3 ([4, 0, 6, 2, 5, 1, 3].map (10 + ·)) = [[14, 10, 16], [12, 15, 11], [13]] := by decide
+
+/-- **Clauses "batched by …", "No batch mixes datasets", whole passes — for the whole training stream**: the
+    batches the batch sampler cuts from a run are, update by update, the main batch followed by — for every due
+    config in config order — that config's shifted indices cut into pieces of its batch size; nothing is left over.
+    (`c05x_blockBatches a side u = u.xs.take (l1R a u) :: c05x_sideBatches …`, where `c05x_sideBatches` is the
+    `flatMap` over `a.configs.zipIdx` of `if due … then chunks (sideBS a c) ((side i update).map (cfgOffset a i + ·))`.) -/
+theorem stream_batches_closed_form (a : Args) (sa : StartArg) (st : Start)
+    (hctor : ctor a sa = .ok st) (main : Nat → List Nat) (hmain : ∀ e, (main e).length = a.N)
+    (hmainlt : ∀ e x, x ∈ main e → x < a.mainDsLen)
+    (side : Nat → Nat → List Nat) (hside : SideOk a side) (n : Nat) (evs : List Ev)
+    (h : l1 a main side n st = some evs) :
+    batchSampler evs =
+      ((c05x_traj a main n (l1Start main st)).flatMap (fun u =>
+        u.xs.take (l1R a u) ::
+          a.configs.zipIdx.flatMap (fun ci =>
+            if due ci.1 (decide (u.p + l1R a u = spe a)) (l1Next a u).epoch (l1Next a u).update
+                (l1Next a u).sample u.sample
+            then chunks (sideBS a ci.1) ((side ci.2 (l1Next a u).update).map (cfgOffset a ci.2 + ·))
+            else [])), []) := by
+  obtain ⟨hB, _, hS, hSN⟩ := C04.ctor_ok_geometry a sa st hctor
+  have hmain' : ∀ e, spe a ≤ (main e).length := fun e => by rw [hmain e]; exact hSN
+  have hok := c05x_traj_ok a main hS hmain' hmainlt n _ (c05x_start_ok a main hS hmain' st)
+      (fun x hx => hmainlt _ x hx)
+  rw [c05x_l1_blocks a main side n st evs h]
+  exact c05x_batchSampler_blocks a side hB hside _ (fun v hv => (hok v hv).1) _
+
+/-- non-vacuity of `stream_batches_closed_form`: all hypotheses hold for this instance and the right-hand side
+    evaluates to the batches `[0,1] [2,3] [5,6] [7] [4] [11,9] [0,1] [5,6] [7]` -/
+example :
+    let a : Args := ⟨5, 5, 2, false, none, .updates 4,
+      [⟨none, some 2, none, some 2, 3, 3⟩, ⟨some 1, none, none, none, 2, 4⟩]⟩
+    let main : Nat → List Nat := fun _ => [0, 1, 2, 3, 4]
+    let side : Nat → Nat → List Nat := fun i _ => if i = 0 then [0, 1, 2] else [3, 1]
+    ctor a .none = .ok ⟨0, 0, 0⟩ ∧ (∀ e, (main e).length = a.N) ∧ (∀ e x, x ∈ main e → x < a.mainDsLen) ∧
+    SideOk a side ∧
+    (c05x_traj a main 10 (l1Start main ⟨0, 0, 0⟩)).flatMap (c05x_blockBatches a side) =
+      [[0, 1], [2, 3], [5, 6], [7], [4], [11, 9], [0, 1], [5, 6], [7]] := by
+  refine ⟨rfl, fun _ => rfl, ?_, ?_, by decide⟩
+  · intro e x hx; simp at hx ⊢; omega
+  · intro i c h u
+    match i with
+    | 0 => simp at h; subst h; simp
+    | 1 => simp at h; subst h; simp
+    | n + 2 => simp at h
+
+/-- **Clause "a zero budget yields exactly one full pass over every config"** (and nothing else; with a non-zero
+    start checkpoint the code's assertion fails) — closed form of the zero-budget stream: for every config, in
+    config order, ONE pass over what its sampler yields (`side i 0`), shifted by the config's offset, flags by the
+    config's (else the main) batch size. -/
+theorem zero_budget_stream_closed_form (a : Args) (main : Nat → List Nat) (side : Nat → Nat → List Nat)
+    (fuel : Nat) (s : Start) (hz : zeroBudget a.budget = true) :
+    iter a s main side fuel =
+      if s = ⟨0, 0, 0⟩ then
+        .ok (a.configs.zipIdx.flatMap (fun ci =>
+          sidePass (sideBS a ci.1) ci.1.len (cfgOffset a ci.2) (side ci.2 0)))
+      else .error .assertion := by
+  rw [← c05x_evalLoop_closed]
+  obtain ⟨e, u, sm⟩ := s
+  simp only [iter, hz, if_true, Start.mk.injEq]
+
+/-- **Zero budget: whole passes, the config's batch size, unmixed batches, right dataset and sample.**
+    For the zero-budget stream `evalLoop`: (1) the batches are, for every config in config order, that config's
+    shifted indices cut into pieces of its (else the main) batch size, nothing left over; (2) every batch lies in
+    ONE dataset of the concat dataset and passes the collator's single-dataset assertion, being dispatched to that
+    dataset's collator; (3) fetching the stream through the concat dataset gives, for every config `i` in order,
+    (dataset `i+1`, `y`) for every index `y` its sampler yields — each config exactly once, in full. -/
+theorem zero_budget_whole_unmixed_passes (a : Args) (sa : StartArg) (st : Start) (hctor : ctor a sa = .ok st)
+    (side : Nat → Nat → List Nat) (hside : SideOk a side) :
+    batchSampler (evalLoop a side) =
+      (a.configs.zipIdx.flatMap (fun ci =>
+        chunks (sideBS a ci.1) ((side ci.2 0).map (cfgOffset a ci.2 + ·))), []) ∧
+    (∀ b ∈ (batchSampler (evalLoop a side)).1, ∃ d, (∀ i ∈ b, inDs (dsSizes a) d i) ∧
+      collateDispatch (b.map (fun i => (concatGet (dsSizes a) i).1)) = some d) ∧
+    c05x_resolved (dsSizes a) (evalLoop a side) =
+      a.configs.zipIdx.flatMap (fun ci => (side ci.2 0).map (fun y => (ci.2 + 1, y))) := by
+  obtain ⟨hB, _, _, _⟩ := C04.ctor_ok_geometry a sa st hctor
+  refine ⟨c05x_batchSampler_evalLoop a side hB hside, ?_, c05x_resolved_evalLoop a side hside⟩
+  intro b hb
+  obtain ⟨d, hd⟩ := (blocks_batches (c05x_evalLoop_blocks a side hside)).2 b hb
+  exact ⟨d, hd, c05x_collate_of_inDs _ d b (c05x_batchSamplerGo_nonempty _ _ b hb) hd⟩
+
+/-- non-vacuity for the zero-budget theorems: two configs, per-config batch size 2 on the first -/
+example :
+    let a : Args := ⟨5, 5, 2, false, none, .epochs 0,
+      [⟨none, some 2, none, some 2, 3, 3⟩, ⟨some 1, none, none, none, 2, 4⟩]⟩
+    let side : Nat → Nat → List Nat := fun i _ => if i = 0 then [0, 1, 2] else [3, 1]
+    ctor a .none = .ok ⟨0, 0, 0⟩ ∧ zeroBudget a.budget = true ∧ SideOk a side ∧
+    iter a ⟨0, 0, 0⟩ (fun _ => [0, 1, 2, 3, 4]) side 0 =
+      .ok [.idx false 5, .idx true 6, .idx true 7, .idx false 11, .idx true 9] ∧
+    batchSampler (evalLoop a side) = ([[5, 6], [7], [11, 9]], []) ∧
+    c05x_resolved (dsSizes a) (evalLoop a side) = [(1, 0), (1, 1), (1, 2), (2, 3), (2, 1)] := by
+  refine ⟨rfl, by decide, ?_, rfl, by decide, by decide⟩
+  intro i c h u
+  match i with
+  | 0 => simp at h; subst h; simp
+  | 1 => simp at h; subst h; simp
+  | n + 2 => simp at h
+
+/-- **Clause "every yielded index resolves to the dataset and sample it was drawn for"**, for every index event of
+    the training stream, in order: fetching the stream through `_InterleavedConcatDataset.__getitem__`
+    (`c05x_resolved` = `concatGet` of every index event) gives, update by update, `(0, x)` for every index `x` of
+    the main batch (the main sampler's own index) and then, for every due config `i` in config order,
+    `(i+1, y)` for every index `y` its sampler yielded for that pass (the side sampler's own index, i.e. the
+    stream index minus the config's offset). -/
+theorem stream_resolves_to_what_was_drawn (a : Args) (sa : StartArg) (st : Start)
+    (hctor : ctor a sa = .ok st) (main : Nat → List Nat) (hmain : ∀ e, (main e).length = a.N)
+    (hmainlt : ∀ e x, x ∈ main e → x < a.mainDsLen)
+    (side : Nat → Nat → List Nat) (hside : SideOk a side) (n : Nat) (evs : List Ev)
+    (h : l1 a main side n st = some evs) :
+    c05x_resolved (dsSizes a) evs =
+      (c05x_traj a main n (l1Start main st)).flatMap (fun u =>
+        (u.xs.take (l1R a u)).map (fun x => (0, x)) ++
+          a.configs.zipIdx.flatMap (fun ci =>
+            if due ci.1 (decide (u.p + l1R a u = spe a)) (l1Next a u).epoch (l1Next a u).update
+                (l1Next a u).sample u.sample
+            then (side ci.2 (l1Next a u).update).map (fun y => (ci.2 + 1, y))
+            else [])) := by
+  obtain ⟨_, _, hS, hSN⟩ := C04.ctor_ok_geometry a sa st hctor
+  have hmain' : ∀ e, spe a ≤ (main e).length := fun e => by rw [hmain e]; exact hSN
+  have hok := c05x_traj_ok a main hS hmain' hmainlt n _ (c05x_start_ok a main hS hmain' st)
+      (fun x hx => hmainlt _ x hx)
+  rw [c05x_l1_blocks a main side n st evs h]
+  exact c05x_resolved_blocks a side hside _ (fun v hv => (hok v hv).2) _
+
+/-- the two index-level facts behind `stream_resolves_to_what_was_drawn`: a main index `x` resolves to `(0, x)`,
+    and index `y` of config `i`'s sampler, yielded as `cfgOffset a i + y`, resolves to `(i+1, y)` -/
+theorem yielded_index_resolves (a : Args) :
+    (∀ x, x < a.mainDsLen → concatGet (dsSizes a) x = (0, x)) ∧
+    (∀ i c y, a.configs[i]? = some c → y < c.dsLen → concatGet (dsSizes a) (cfgOffset a i + y) = (i + 1, y)) :=
+  ⟨c05x_concatGet_main a, fun i c y h hy => c05x_concatGet_side a i c h y hy⟩
+
+/-- non-vacuity of `stream_resolves_to_what_was_drawn` (hypotheses as in the example of
+    `stream_batches_closed_form`): the resolved stream of that run -/
+example :
+    let a : Args := ⟨5, 5, 2, false, none, .updates 4,
+      [⟨none, some 2, none, some 2, 3, 3⟩, ⟨some 1, none, none, none, 2, 4⟩]⟩
+    let main : Nat → List Nat := fun _ => [0, 1, 2, 3, 4]
+    let side : Nat → Nat → List Nat := fun i _ => if i = 0 then [0, 1, 2] else [3, 1]
+    (l1 a main side 10 ⟨0, 0, 0⟩).map (c05x_resolved (dsSizes a)) = some
+      [(0, 0), (0, 1), (0, 2), (0, 3), (1, 0), (1, 1), (1, 2), (0, 4), (2, 3), (2, 1), (0, 0), (0, 1),
+       (1, 0), (1, 1), (1, 2)] ∧
+    (c05x_traj a main 10 (l1Start main ⟨0, 0, 0⟩)).flatMap (c05x_blockDrawn a side) =
+      [(0, 0), (0, 1), (0, 2), (0, 3), (1, 0), (1, 1), (1, 2), (0, 4), (2, 3), (2, 1), (0, 0), (0, 1),
+       (1, 0), (1, 1), (1, 2)] := by decide
+
+/-- **`_InterleavedConcatDataset.__getitem__` on ANY valid index** (not only on indices the sampler shifted):
+    for `idx < len(dataset)` the result `(d, x)` names an existing dataset, a sample inside it, and
+    `idx = (sum of the sizes of the datasets before d) + x`; conversely every such decomposition is the result
+    (`concatGet_offset`), so the result is the unique decomposition. -/
+theorem concat_getitem_spec (szs : List Nat) (idx : Nat) (h : idx < sumList szs) :
+    (concatGet szs idx).1 < szs.length ∧ (concatGet szs idx).2 < szs.getD (concatGet szs idx).1 0 ∧
+    idx = sumList (szs.take (concatGet szs idx).1) + (concatGet szs idx).2 :=
+  c05x_concatGet_spec szs idx h
+
+/-- **negative indices of `_InterleavedConcatDataset.__getitem__`**: `len(dataset)` is the sum of the sizes;
+    `ds[-m]` for `m ≥ 1` raises ValueError exactly if `m > len(ds)` and otherwise resolves like `ds[len(ds) - m]`
+    (so to an existing dataset and sample, by `concat_getitem_spec`); a non-negative index is passed through. -/
+theorem concat_negative_index (szs : List Nat) :
+    (cumsum 0 szs).getLastD 0 = sumList szs ∧
+    (∀ m : Nat, 0 < m → concatGetInt szs (-(m : Int)) =
+      if sumList szs < m then none else some (concatGet szs (sumList szs - m))) ∧
+    (∀ n : Nat, concatGetInt szs (n : Int) = some (concatGet szs n)) :=
+  ⟨c05x_total szs, c05x_concatGetInt_neg szs, c05x_concatGetInt_nonneg szs⟩
+
+/-- sizes 5, 3, 4: `ds[-1]` is the last sample of the last dataset, `ds[-5]` the last of dataset 1,
+    `ds[-12]` the very first sample, `ds[-13]` a ValueError -/
+example : concatGetInt [5, 3, 4] (-1) = some (2, 3) ∧ concatGetInt [5, 3, 4] (-5) = some (1, 2) ∧
+    concatGetInt [5, 3, 4] (-12) = some (0, 0) ∧ concatGetInt [5, 3, 4] (-13) = none ∧
+    concatGetInt [5, 3, 4] 7 = some (1, 2) := by decide
+
+/-- **Clause "is collated by that dataset's collator"** — for every batch of the training stream: all its indices
+    lie in ONE dataset `d` of the concat dataset, and the collator (`collateDispatch` = the assertion that all
+    fetched dataset indices are equal, then `self.collators[that index]`) does not fail and picks collator `d`. -/
+theorem every_batch_is_collated_by_its_datasets_collator (a : Args) (sa : StartArg) (st : Start)
+    (hctor : ctor a sa = .ok st) (main : Nat → List Nat) (hmain : ∀ e, (main e).length = a.N)
+    (hmainlt : ∀ e x, x ∈ main e → x < a.mainDsLen)
+    (side : Nat → Nat → List Nat) (hside : SideOk a side) (n : Nat) (evs : List Ev)
+    (h : l1 a main side n st = some evs) :
+    ∀ b ∈ (batchSampler evs).1, ∃ d, (∀ i ∈ b, inDs (dsSizes a) d i) ∧
+      collateDispatch (b.map (fun i => (concatGet (dsSizes a) i).1)) = some d := by
+  obtain ⟨hB, _, hS, hSN⟩ := C04.ctor_ok_geometry a sa st hctor
+  have hmain' : ∀ e, spe a ≤ (main e).length := fun e => by rw [hmain e]; exact hSN
+  intro b hb
+  obtain ⟨d, hd⟩ := (stream_batches_unmixed a main side hB hS hmain' hmainlt hside n st evs h).2 b hb
+  exact ⟨d, hd, c05x_collate_of_inDs _ d b (c05x_batchSamplerGo_nonempty _ _ b hb) hd⟩
+
+/-- which collator: a batch cut from config `i`'s pass goes to collator `i+1` (the config's own), a main batch to
+    collator 0 (the main collator) -/
+theorem batch_collator_is_the_one_it_was_drawn_for (a : Args) :
+    (∀ b : List Nat, b ≠ [] → (∀ x ∈ b, x < a.mainDsLen) →
+      collateDispatch (b.map (fun i => (concatGet (dsSizes a) i).1)) = some 0) ∧
+    (∀ i c bs (xs : List Nat), a.configs[i]? = some c → 0 < bs → (∀ y ∈ xs, y < c.dsLen) →
+      ∀ b ∈ chunks bs (xs.map (cfgOffset a i + ·)),
+        collateDispatch (b.map (fun j => (concatGet (dsSizes a) j).1)) = some (i + 1)) := by
+  constructor
+  · intro b hne hb
+    apply c05x_collateDispatch_const _ _ (by simpa using hne)
+    intro d hd
+    obtain ⟨x, hx, rfl⟩ := List.mem_map.mp hd
+    rw [c05x_concatGet_main a x (hb x hx)]
+  · intro i c bs xs hc hbs hxs b hb
+    have hsz := chunks_sizes bs hbs _ _ (Nat.le_refl _) b hb
+    have hne : b ≠ [] := by intro h; rw [h] at hsz; simp at hsz
+    apply c05x_collateDispatch_const _ _ (by simpa using hne)
+    intro d hd
+    obtain ⟨j, hj, rfl⟩ := List.mem_map.mp hd
+    have hjin : j ∈ (chunks bs (xs.map (cfgOffset a i + ·))).flatten := List.mem_flatten.mpr ⟨b, hb, hj⟩
+    rw [chunks_flatten bs hbs _ _ (Nat.le_refl _)] at hjin
+    obtain ⟨y, hy, rfl⟩ := List.mem_map.mp hjin
+    rw [c05x_concatGet_side a i c hc y (hxs y hy)]
+
+/-- the collator's assertion does fail on a mixed batch (so the theorems above are not vacuous about it) -/
+example : collateDispatch [1, 1, 0] = none ∧ collateDispatch [2, 2] = some 2 := by decide
 
 end KDVerif.C05
